@@ -175,13 +175,66 @@ def who_may_call(rep, F, rule='R-NOCALL'):
     return n
 
 
+def infinity_direction(rep, F, rule='R-TABLE'):
+    """to_f64 / to_f32: an infinity may be returned only for a magnitude that is too LARGE.  The give-up arm (exponent does
+    not fit the integer type handed to powi / the float parser) is reached for huge positive exponents and for huge
+    negative ones alike; a path that returns +-infinity without having tested the sign of the scale turns 1e-3000000000
+    into infinity instead of zero.  Also: the sign of the infinity follows the sign of the decimal."""
+    n = 0
+    for fn in F.real_fns():
+        if fn.is_closure or not re.search(r"ToPrimitive for BigDecimalRef(<'_>)?>::to_f(64|32)$", fn.name):
+            continue
+        try:
+            paths = TB.PathEnum(F, fn, max_paths=4000, cut_loops=True).run()
+        except Undecided as e:
+            rep.undecided(rule, fn.key + ':infinity-only-on-overflow', str(e), fn.where())
+            continue
+        n += 1
+        rep.add_functions([fn.name])
+        bad, good, signbad = [], 0, []
+        for atoms, out in paths:
+            o = TB.show(TB.strip_refs(out))
+            m = re.search(r'(NEG_)?INFINITY', o)
+            if not m:
+                continue
+            direction = False
+            minus = None
+            for a, c in atoms:
+                a0 = TB.strip_refs(a)
+                s = TB.show(a0)
+                if a0[0] == 'bin' and a0[1] in ('Lt', 'Le', 'Gt', 'Ge') and ('scale' in s) and (TB.T('const', 0) in (TB.strip_refs(a0[2]), TB.strip_refs(a0[3]))):
+                    direction = True
+                if a0[0] == 'call' and re.search(r'is_(negative|positive)$', TB._plain(a0[1])) and 'scale' in s:
+                    direction = True
+                mm = re.match(r'^(Ne|Eq)\((?:arg1\.sign|sign\(arg1\)),Sign::Minus\)$', s)
+                if mm:
+                    truth = not (c == ('eq', 0))
+                    minus = truth if mm.group(1) == 'Eq' else (not truth)
+            if not direction:
+                bad.append(o[:60])
+            else:
+                good += 1
+            if minus is not None and (m.group(1) is not None) != minus:
+                signbad.append(o[:60])
+        key = fn.key + ':infinity-only-on-overflow'
+        if signbad:
+            rep.violation(rule, key, 'the sign of the infinity returned does not follow the sign of the decimal', fn.where())
+        elif bad:
+            rep.violation(rule, key, '%d path(s) return an infinity when the exponent does not fit, without testing whether the scale is negative (huge value) or positive (tiny value): 1e-3000000000 converts to infinity instead of 0' % len(bad), fn.where())
+        elif good:
+            rep.ok(rule, key, '%d path(s) return an infinity, each after establishing the sign of the scale; the infinity carries the decimal\'s sign' % good, fn.where())
+        else:
+            rep.ok(rule, key, 'no path returns an infinity constant', fn.where())
+    return n
+
+
 def run(ctx):
     rep = ctx.rep
     rep.explanation = ('Static MIR analysis. R-CONST: the multi-word literals handed to BigUint::from_slice are read from the MIR array constants, '
                        'assembled little-endian by the checker and compared with 5^k (k = the scale literal used in the same function) -- constant '
                        'evaluation of source literals, no bigdecimal code runs. R-TABLE: the FpCategory dispatch of try_parse_from_f32/f64 is '
                        'extracted from the CFG and checked for all 5 categories. R-NOCALL: the unchecked converters are only called through the '
-                       'classifiers; TryFrom/FromPrimitive float entries forward to them. BITFIELD: a bit-provenance (known-bits) dataflow over the values derived from to_bits() shows, for binary32 and binary64, that the mantissa is bits 0..M-1 plus the implicit bit, the exponent is bits M..M+E-1 minus (bias + M), the sign is decided by the top bit alone (clear -> Plus), the subnormal magnitude is the representation with exactly the sign bit cleared, and the +-0 test looks at every bit but the sign. NOT decided: the power-of-two/five scaling after the split, all of to_f64.')
+                       'classifiers; TryFrom/FromPrimitive float entries forward to them. BITFIELD: a bit-provenance (known-bits) dataflow over the values derived from to_bits() shows, for binary32 and binary64, that the mantissa is bits 0..M-1 plus the implicit bit, the exponent is bits M..M+E-1 minus (bias + M), the sign is decided by the top bit alone (clear -> Plus), the subnormal magnitude is the representation with exactly the sign bit cleared, and the +-0 test looks at every bit but the sign. R-TABLE (to_f64): an infinity is returned only on paths that established the sign of the scale (huge value, not tiny value) and carries the decimal\'s sign. NOT decided: the power-of-two/five scaling after the split, the accuracy of to_f64.')
     F = ctx.facts('default', 'rel')
     n1 = const_tables(rep, F)
     n2 = classifier_tables(rep, F)
@@ -190,5 +243,7 @@ def run(ctx):
     rep.floor('classifier cells', n2, 10)
     rep.floor('who-may-call instances', n3, 8)
     n4 = bitfield.check(rep, F)
+    n5 = infinity_direction(rep, F)
+    rep.floor('float converters checked for the direction of infinity', n5, 1)
     rep.floor('IEEE-754 field obligations', n4, 12)
     rep.extra['exhaustive_table'] = True
